@@ -57,7 +57,7 @@ def run(ck):
               detail=None if ok else f"writer: {sorted(show_seq(x) for x in pw)}  reader: {sorted(show_seq(x) for x in pr)}")
     accepted_sets(ck, prog)
     from . import width
-    width.run(ck, prog)
+    width.run(ck, prog, standalone=True)   # `for every serializable value`: winter-fri's FriProof on its own, too
     vint_rule(ck, prog)
     ck.control("u16 and u32 length prefixes are different tokens", ("fixed", 2, "") != ("fixed", 4, ""))
 
